@@ -371,7 +371,7 @@ func runCorpus(w *gen.Writer, dir string) {
 	}
 }
 
-func runReplay(w *gen.Writer, path string) {
+func runReplay(w *gen.Writer, path string, seed uint64) {
 	b, err := os.ReadFile(path)
 	if err != nil {
 		panic(err)
@@ -393,7 +393,20 @@ func runReplay(w *gen.Writer, path string) {
 	}
 	var cs caseSpec
 	if err := json.Unmarshal(d, &cs); err != nil || cs.Op == "" {
-		panic("replay file has no replayable case detail (end-to-end cases are re-generated from the seed instead)")
+		panic("replay file has no replayable case detail")
+	}
+	if cs.Op == "e2e" { // an end-to-end case is a whole corpus: it is re-generated from the seed, in the stored mode
+		var m struct {
+			Mode string `json:"mode"`
+		}
+		json.Unmarshal(d, &m)
+		dir, err := os.MkdirTemp(os.TempDir(), "c25-e2e-replay-")
+		if err != nil {
+			panic(err)
+		}
+		defer os.RemoveAll(dir)
+		runEndToEndOne(w, gen.NewRand(seed), dir, m.Mode)
+		return
 	}
 	emit(w, cs, "replay")
 }
@@ -404,7 +417,7 @@ func main() {
 	defer w.Close()
 	defer stopGRPC()
 	if f.Replay != "" {
-		runReplay(w, f.Replay)
+		runReplay(w, f.Replay, f.Seed)
 		return
 	}
 	runCorpus(w, f.Corpus)
